@@ -1900,10 +1900,12 @@ func (query *Query) exec() (result any, err error) {
 		return rs[0], nil
 	}
 	slice := make([]any, 0)
+	dimensions := 0
 	for _, current := range query.from {
 		switch current := current.(type) {
 		case []any:
 			{
+				dimensions++
 				copy := CopyQuery(query)
 				copy.postProcessors = nil
 				copy.from = current
@@ -1934,6 +1936,14 @@ func (query *Query) exec() (result any, err error) {
 				slice = append(slice, current)
 			}
 		}
+	}
+	if dimensions != 0 && dimensions == len(query.from) {
+		// every row was an array and has been evaluated as a table of its own,
+		// from WHERE to LIMIT: that is the result, with the nesting of the source
+		if query.options.completed != nil {
+			query.options.completed()
+		}
+		return slice, nil
 	}
 	rs, err := ExecGroupBy(query, slice)
 	if err != nil {
